@@ -144,6 +144,11 @@ GOOD_IDS = [
     "KSR",
     "/KSR",
     "a]]b",
+    "root--2024-q1--fallback",  # text that is legal in an attribute value but not everywhere in a document ("--" in a comment, "?>" in a PI, "]]>" in CDATA)
+    "Q1--",
+    "-->",
+    "x?>y",
+    "a]]>b",
     "0",
     "𝔘𝔫𝔦",
 ]
